@@ -60,8 +60,8 @@ theorem stepI_budget (p : Program w) (limited : Bool) (c : Cfg w) (ins : Instr w
         by_cases hl : limited = true
         · simp only [hl, if_true]
           right
-          exact ⟨trivial, by have := h; simp only [hl, true_and] at this; omega, rfl⟩
-        · simp only [hl, if_false]; left; trivial
+          exact ⟨trivial, by have := h; simp only [hl, true_and] at this; omega, trivial⟩
+        · simp only [hl]; left; trivial
       split
       · split
         · exact ⟨by simp [StepRes.tag], hb⟩
